@@ -57,7 +57,8 @@ let run_sa cap ops =
       (match name, args with
        | "set", [i; v] -> a := sa_set !a (nat_of_int i) v
        | "get", [i] -> pr " ->%d" (sa_get 0 !a (nat_of_int i))
-       | "fill", [v] -> a := sa_fill !a v
+       | "fill", [v] | "ctorfill", [v] -> a := sa_fill !a v
+       | "isempty", _ -> pr " ->%d" (if List.for_all (fun i -> sa_get 0 !a (nat_of_int i) = 0) (range 0 cap) then 1 else 0)
        | "clear", _ -> a := sa_clear 0 !a
        | _ -> ());
       dump !a; pr "\n") ops
